@@ -111,6 +111,21 @@ func (br *xmpReader) readAttribute(tag *Tag) (attr Attribute, err error) {
 		}
 	}
 
+	// White space before the end of the start tag: there are no more attributes
+	if buf[0] == '>' {
+		br.a = false
+		_, err = br.Discard(1)
+		return
+	}
+	if buf[0] == '/' {
+		if buf, err = br.Peek(2); err == nil && buf[1] == '>' {
+			br.a = false
+			tag.t = soloTag
+			_, err = br.Discard(2)
+			return
+		}
+	}
+
 	// Attribute Name
 	if buf, err = br.Peek(maxTagHeaderSize); err != nil {
 		err = errors.Wrap(err, "Attr")
